@@ -190,6 +190,13 @@ def run_query(cfg, g, sr, q):
     if op == "transform_call":
         new = apply_transform(cfg, q["t"])
         return {"values": [enc(new(s2py(xs))) for xs in q["xs"]], "shape": shape(new), "useful": useful_report(new)}
+    if op == "transform":
+        new = apply_transform(cfg, q["t"])
+        out = {"S": repr(new.S), "V": sorted(repr(v) for v in new.V), "rules": [[enc(r.w), repr(r.head), [repr(y) for y in r.body]] for r in new.rules],
+               "in_cnf": bool(new.in_cnf()), "has_unary_cycle": bool(new.has_unary_cycle())}
+        if q.get("xs") is not None:
+            out["values"] = [enc(new(s2py(xs))) for xs in q["xs"]]
+        return out
     if op == "unfold_sites":
         return [[i, k] for i, r in enumerate(cfg.rules) for k, y in enumerate(r.body) if y not in cfg.V]
     if op == "treesum":
